@@ -39,6 +39,27 @@ def attribute_resolution(chk, fi, rule="O9.1"):
     return n
 
 
+STEP_WORDS = ("regulate", "shrink", "grow", "release", "reap")
+
+
+def helper_inline(cls):
+    """inline own-class helper methods (extracted loop bodies), but never the step primitives themselves"""
+
+    def flt(f, ct):
+        return f.cls is not None and (f.cls is cls or f.cls.qual in cls.mro) and not any(w in f.name for w in STEP_WORDS) and not f.is_async
+
+    return flt
+
+
+def not_inlined_calls(evs):
+    """indices of call events that were not inlined"""
+    out = []
+    for i, e in enumerate(evs):
+        if e[0] == "call" and not (i + 1 < len(evs) and evs[i + 1][0] == "inline-enter"):
+            out.append(i)
+    return out
+
+
 def _period_attr(chk, cls):
     """attributes assigned in __init__ directly from a constructor parameter named interval/window"""
     prog = chk.program
@@ -98,7 +119,7 @@ def loop_shape(chk, cls):
         c = prog.classes.get(q)
         if c is not None:
             own_methods.update(c.methods)
-    it = Interp(prog, run, unroll=1)
+    it = Interp(prog, run, unroll=1, inline=helper_inline(cls))
     outs = it.exec_block(loop.body, base.fork())
     chk.count(len(outs))
     periods = _period_attr(chk, cls)
@@ -112,8 +133,9 @@ def loop_shape(chk, cls):
             verdict_ok = False
             continue
         sleeps, steps, blocking = [], [], []
+        live = set(not_inlined_calls(evs))
         for i, e in enumerate(evs):
-            if e[0] != "call":
+            if e[0] != "call" or i not in live:
                 continue
             ct = e[1]
             f = ct[1]
@@ -161,6 +183,10 @@ def loop_shape(chk, cls):
                 verdict_ok = False
             elif steps[0][0] > si:
                 chk.bad(rule, name, "the controller sleeps before its first regulation step (required: one step immediately)", node=loop, stmt="step-order")
+                verdict_ok = False
+            late = [e2 for j, e2 in enumerate(evs) if j > si and e2[0] in ("store", "aug") and e2[1][0] == "attr" and e2[1][2] == "demand"]
+            if late:
+                chk.bad(rule, name, "the step's demand write happens after the sleep: no step takes effect immediately and every write applies a decision that is one interval old", node=loop, stmt="effect-after-sleep")
                 verdict_ok = False
         # O9.3 period agreement
         sleep_arg = se[1][2][0] if se[1][2] else None
@@ -254,7 +280,20 @@ def buffer_rules(chk):
                     if isinstance(t, ast.Attribute) and t.attr == "demand" and util.unparse(t.value).endswith("target"):
                         writes.append((fi, n))
     chk.count(len(writes))
-    outside = [(fi, n) for fi, n in writes if fi is not run]
+    loop0 = util.the_loop(run) if run is not None else None
+    called_in_loop = set()
+    if loop0 is not None:
+        for n in ast.walk(loop0):
+            if isinstance(n, ast.Call) and isinstance(n.func, ast.Attribute) and util.dotted(n.func.value) == "self":
+                called_in_loop.add(n.func.attr)
+    called_elsewhere = set()
+    for fis in cls.methods.values():
+        for f2 in fis:
+            for n in ast.walk(f2.node):
+                if isinstance(n, ast.Call) and isinstance(n.func, ast.Attribute) and util.dotted(n.func.value) == "self":
+                    if not (f2 is run and loop0 is not None and any(x is n for x in ast.walk(loop0))):
+                        called_elsewhere.add(n.func.attr)
+    outside = [(fi, n) for fi, n in writes if fi is not run and not (fi.name in called_in_loop and fi.name not in called_elsewhere)]
     for fi, n in outside:
         chk.bad(rule, fi.qual, "Buffer writes the target's demand outside its window loop", node=n)
     if not writes:
@@ -265,7 +304,7 @@ def buffer_rules(chk):
     loop = util.the_loop(run)
     if loop is None:
         return
-    it = Interp(prog, run, unroll=1)
+    it = Interp(prog, run, unroll=1, inline=helper_inline(cls))
     outs = it.exec_block(loop.body, Path())
     pending = ("attr", SELF, "demand")
     tdemand = ("attr", ("attr", SELF, "target"), "demand")
@@ -318,7 +357,7 @@ def factory_run(chk):
     if loop is None:
         chk.undecided(rule, run.qual, "no single loop", node=run.node)
         return
-    it = Interp(prog, run, unroll=1)
+    it = Interp(prog, run, unroll=1, inline=helper_inline(cls))
     outs = it.exec_block(loop.body, Path())
     supply = ("attr", SELF, "supply")
     demand = ("attr", SELF, "demand")
@@ -328,7 +367,8 @@ def factory_run(chk):
         chk.count()
         if o.kind != "normal":
             continue
-        calls = [e[1] for e in o.path.events if e[0] == "call" and e[1][1][0] == "attr" and e[1][1][1] == SELF]
+        live = set(not_inlined_calls(o.path.events))
+        calls = [e[1] for i, e in enumerate(o.path.events) if i in live and e[0] == "call" and e[1][1][0] == "attr" and e[1][1][1] == SELF]
         adj = [c for c in calls if c[1][2] not in ("supply", "demand")]
         s = it.get_rel(supply, demand, o.path)
         names = [c[1][2] for c in adj]
